@@ -35,6 +35,8 @@ type env struct {
 	trustDomain string
 	// SSL: a throw-away CA and a server certificate for "localhost", made at run time
 	caFile, certFile, keyFile string
+	// file transfer shapes: a 10 000-byte source file and a directory for received copies
+	fileDir, srcFile string
 }
 
 func newEnv(dir string) (*env, error) {
@@ -53,6 +55,14 @@ func newEnv(dir string) (*env, error) {
 		return nil, err
 	}
 	e := &env{poolKeyFile: pool, keyDir: keyDir, token: tok, trustDomain: "cedar.test"}
+	e.fileDir = filepath.Join(dir, "c19-files")
+	if err := os.MkdirAll(e.fileDir, 0o700); err != nil {
+		return nil, err
+	}
+	e.srcFile = filepath.Join(e.fileDir, "src")
+	if err := os.WriteFile(e.srcFile, payload(10000, 7), 0o600); err != nil {
+		return nil, err
+	}
 	if err := e.makeCerts(filepath.Join(dir, "c19-ssl")); err != nil {
 		return nil, fmt.Errorf("cannot make SSL credentials: %w", err)
 	}
@@ -62,6 +72,7 @@ func newEnv(dir string) (*env, error) {
 // inst is one prepared run of a shape: the connection under test wraps the end
 // the operation under test uses; the other end belongs to a real cedar peer.
 type inst struct {
+	a, b      *stream.Stream // plain shapes: the stream under test and the peer's stream
 	conn      *wire.StallConn
 	op        func(ctx context.Context) error // the call under test
 	peer      func(ctx context.Context) error // the real cedar peer
@@ -81,6 +92,17 @@ type shape struct {
 	// HOLDING. Every step up to there still has to be cancellable; only the runs whose
 	// model outcome is "returns nil" (never fired / fired after the return) are skipped.
 	FailsAlone bool
+	// Deep: thorough tier only
+	Deep bool
+	// ClosesAlways: the call closes the connection when it returns, also on success (server.ServeConn)
+	ClosesAlways bool
+	// Dir: plain shapes: "r" the operation only reads, "w" only writes, "rw" both
+	Dir string
+	// NoProbe: the call derives its own context from the caller's, so the probe context cannot
+	// place a cancellation between two of its steps (server.ServeConn)
+	NoProbe bool
+	// Plain, repeatable operation: it can be issued again on the same stream (reuse / duplex runs)
+	Repeatable bool
 	prepare    func(e *env) (*inst, error)
 }
 
@@ -135,6 +157,7 @@ func symKey() []byte {
 
 type plainDef struct {
 	name string
+	dir  string // "r" | "w" | "rw"
 	enc  bool
 	op   func(ctx context.Context, st *stream.Stream) error
 	peer func(ctx context.Context, st *stream.Stream) error
@@ -148,10 +171,10 @@ func recvAll(ctx context.Context, st *stream.Stream) error {
 func plainDefs() []plainDef {
 	small := payload(100, 1)
 	return []plainDef{
-		{name: "send_single",
+		{name: "send_single", dir: "w",
 			op:   func(ctx context.Context, st *stream.Stream) error { return st.SendMessage(ctx, small) },
 			peer: recvAll},
-		{name: "send_stream_api", // WriteMessage crosses the 4096-byte frame threshold twice, then EndMessage
+		{name: "send_stream_api", dir: "w", // WriteMessage crosses the 4096-byte frame threshold twice, then EndMessage
 			op: func(ctx context.Context, st *stream.Stream) error {
 				st.StartMessage()
 				for i := 0; i < 2; i++ {
@@ -165,7 +188,7 @@ func plainDefs() []plainDef {
 				return st.EndMessage(ctx)
 			},
 			peer: recvAll},
-		{name: "send_message_api", // typed Message writer, several frames
+		{name: "send_message_api", dir: "w", // typed Message writer, several frames
 			op: func(ctx context.Context, st *stream.Stream) error {
 				m := message.NewMessageForStream(st)
 				if err := m.PutInt(ctx, 42); err != nil {
@@ -182,10 +205,10 @@ func plainDefs() []plainDef {
 				return m.FinishMessage(ctx)
 			},
 			peer: recvAll},
-		{name: "recv_frame",
+		{name: "recv_frame", dir: "r",
 			op:   func(ctx context.Context, st *stream.Stream) error { _, err := st.ReceiveFrame(ctx); return err },
 			peer: func(ctx context.Context, st *stream.Stream) error { return st.SendMessage(ctx, small) }},
-		{name: "recv_complete_2frames",
+		{name: "recv_complete_2frames", dir: "r",
 			op: recvAll,
 			peer: func(ctx context.Context, st *stream.Stream) error {
 				if err := st.SendPartialMessage(ctx, payload(300, 3)); err != nil {
@@ -193,7 +216,7 @@ func plainDefs() []plainDef {
 				}
 				return st.SendMessage(ctx, payload(200, 4))
 			}},
-		{name: "recv_message_api", // typed Message reader pulling two frames
+		{name: "recv_message_api", dir: "r", // typed Message reader pulling two frames
 			op: func(ctx context.Context, st *stream.Stream) error {
 				m := message.NewMessageFromStream(st)
 				v, err := m.GetInt(ctx)
@@ -222,7 +245,7 @@ func plainDefs() []plainDef {
 				}
 				return m.FinishMessage(ctx)
 			}},
-		{name: "exchange", // request / response: one write, then the reads of the reply
+		{name: "exchange", dir: "rw", // request / response: one write, then the reads of the reply
 			op: func(ctx context.Context, st *stream.Stream) error {
 				if err := st.SendMessage(ctx, small); err != nil {
 					return err
@@ -243,7 +266,7 @@ func plainDefs() []plainDef {
 				}
 				return st.SendMessage(ctx, r)
 			}},
-		{name: "enc_send", enc: true,
+		{name: "enc_send", dir: "w", enc: true,
 			op: func(ctx context.Context, st *stream.Stream) error {
 				if err := st.SendPartialMessage(ctx, payload(700, 5)); err != nil {
 					return err
@@ -251,7 +274,7 @@ func plainDefs() []plainDef {
 				return st.SendMessage(ctx, small)
 			},
 			peer: recvAll},
-		{name: "enc_recv", enc: true,
+		{name: "enc_recv", dir: "r", enc: true,
 			op: recvAll,
 			peer: func(ctx context.Context, st *stream.Stream) error {
 				if err := st.SendPartialMessage(ctx, payload(300, 6)); err != nil {
@@ -262,22 +285,29 @@ func plainDefs() []plainDef {
 	}
 }
 
-// plainShape: switched = the stream under test was created on ANOTHER connection
-// and moved to the connection in use with SetConnection before the operation
-// (what a reconnecting caller does): cancellation must act on the connection
-// the operation is blocked on, not on the one the stream was born with.
-func plainShape(d plainDef, switched bool) *shape {
+// plainShape builds a plain-operation shape in one stream flavour:
+//
+//	""          the stream as the definition says (plain, or keyed when d.enc)
+//	"enc"       keyed (AES-GCM) although the definition is plain
+//	"setconn"   the stream under test was created on ANOTHER connection and moved to the
+//	            connection in use with SetConnection before the operation (what a
+//	            reconnecting caller does): cancellation must act on the connection the
+//	            operation is blocked on, not on the one the stream was born with
+//	"imported"  keyed, and the stream under test was re-created from exported crypto state
+//	            (NewStreamWithCryptoState), as after a hand-off to another process
+func plainShape(d plainDef, flavour string, deep bool) *shape {
 	name := d.name
-	if switched {
-		name += "_setconn"
+	if flavour != "" {
+		name += "_" + flavour
 	}
-	return &shape{Name: name, Role: "plain", prepare: func(e *env) (*inst, error) {
+	enc := d.enc || flavour == "enc" || flavour == "imported"
+	return &shape{Name: name, Role: "plain", Deep: deep, Dir: d.dir, Repeatable: d.dir == "r" || d.dir == "w", prepare: func(e *env) (*inst, error) {
 		sc, mine, theirs, closeLink, cleanup, err := link(true)
 		if err != nil {
 			return nil, err
 		}
 		var a *stream.Stream
-		if switched {
+		if flavour == "setconn" {
 			old1, old2 := net.Pipe()
 			a = stream.NewStream(old1)
 			a.SetConnection(mine)
@@ -287,7 +317,7 @@ func plainShape(d plainDef, switched bool) *shape {
 			a = stream.NewStream(mine)
 		}
 		b := stream.NewStream(theirs)
-		if d.enc {
+		if enc {
 			if err := a.SetSymmetricKey(symKey()); err != nil {
 				cleanup()
 				return nil, err
@@ -297,7 +327,45 @@ func plainShape(d plainDef, switched bool) *shape {
 				return nil, err
 			}
 		}
-		return &inst{conn: sc, closeLink: closeLink,
+		if flavour == "imported" {
+			// export needs a session past its first protected frame in both directions
+			wctx, wcancel := context.WithTimeout(context.Background(), 10*time.Second)
+			werr := func() error {
+				errCh := make(chan error, 1)
+				go func() {
+					if _, err := b.ReceiveCompleteMessage(wctx); err != nil {
+						errCh <- err
+						return
+					}
+					errCh <- b.SendMessage(wctx, []byte("warm-up reply"))
+				}()
+				if err := a.SendMessage(wctx, []byte("warm-up")); err != nil {
+					return err
+				}
+				if _, err := a.ReceiveCompleteMessage(wctx); err != nil {
+					return err
+				}
+				return <-errCh
+			}()
+			wcancel()
+			if werr != nil {
+				cleanup()
+				return nil, fmt.Errorf("warm-up exchange: %w", werr)
+			}
+			sc.ResetSteps()
+			blob, err := a.ExportCryptoState()
+			if err != nil {
+				cleanup()
+				return nil, fmt.Errorf("ExportCryptoState: %w", err)
+			}
+			a2, err := stream.NewStreamWithCryptoState(mine, blob)
+			if err != nil {
+				cleanup()
+				return nil, fmt.Errorf("NewStreamWithCryptoState: %w", err)
+			}
+			a = a2
+		}
+		return &inst{conn: sc, closeLink: closeLink, a: a, b: b,
 			op:      func(ctx context.Context) error { return d.op(ctx, a) },
 			peer:    func(ctx context.Context) error { return d.peer(ctx, b) },
 			cleanup: cleanup}, nil
@@ -308,6 +376,7 @@ func plainShape(d plainDef, switched bool) *shape {
 // handshakes
 
 type hsDef struct {
+	deep       bool
 	failsAlone bool
 	name       string
 	methods    []security.AuthMethod
@@ -356,8 +425,22 @@ func (e *env) cfg(d hsDef, client bool, peerName string, cache *security.Session
 	return c
 }
 
+// deepHsDefs: thorough tier: the authentication methods again with encryption REQUIRED
+// (key agreement and protected post-authentication messages add steps), no encryption at
+// all, and a resumed authenticated session.
+func deepHsDefs() []hsDef {
+	return []hsDef{
+		{deep: true, name: "hs_claimtobe_enc", methods: []security.AuthMethod{security.AuthClaimToBe}, auth: security.SecurityRequired, enc: security.SecurityRequired},
+		{deep: true, name: "hs_token_enc", methods: []security.AuthMethod{security.AuthToken}, auth: security.SecurityRequired, enc: security.SecurityRequired},
+		{deep: true, name: "hs_fs_enc", methods: []security.AuthMethod{security.AuthFS}, auth: security.SecurityRequired, enc: security.SecurityRequired},
+		{deep: true, name: "hs_none_noenc", methods: []security.AuthMethod{security.AuthNone}, auth: security.SecurityOptional, enc: security.SecurityNever},
+		{deep: true, name: "hs_token_resumed", methods: []security.AuthMethod{security.AuthToken}, auth: security.SecurityRequired, enc: security.SecurityRequired, resumed: true},
+		{deep: true, name: "hs_token_or_claimtobe", methods: []security.AuthMethod{security.AuthToken, security.AuthClaimToBe}, auth: security.SecurityRequired, enc: security.SecurityRequired},
+	}
+}
+
 func hsShape(d hsDef, role string) *shape {
-	return &shape{Name: d.name, Role: role, Handshake: true, FailsAlone: d.failsAlone, prepare: func(e *env) (*inst, error) {
+	return &shape{Name: d.name, Role: role, Handshake: true, FailsAlone: d.failsAlone, Deep: d.deep, prepare: func(e *env) (*inst, error) {
 		serial := atomic.AddInt64(&runSerial, 1)
 		peerName := fmt.Sprintf("c19-server-%d-%d", os.Getpid(), serial)
 		// per-run caches: parallel runs never share a session (the server side of a full
@@ -448,25 +531,52 @@ func hsShape(d hsDef, role string) *shape {
 	}}
 }
 
-func allShapes() []*shape {
+// allShapes: the quick tier runs the shapes that are not Deep; thorough runs all.
+func allShapes(e *env, thorough bool) []*shape {
 	var out []*shape
 	for _, d := range plainDefs() {
-		out = append(out, plainShape(d, false))
+		out = append(out, plainShape(d, "", false))
 	}
 	for _, d := range plainDefs() {
 		switch d.name { // the SetConnection variant: one send, one receive, one exchange
 		case "send_single", "recv_frame", "exchange", "enc_recv":
-			out = append(out, plainShape(d, true))
+			out = append(out, plainShape(d, "setconn", false))
 		}
 	}
 	for _, d := range hsDefs() {
 		out = append(out, hsShape(d, "client"), hsShape(d, "server"))
 	}
+	if !thorough {
+		return out
+	}
+	have := map[string]bool{}
+	for _, s := range out {
+		have[s.Name] = true
+	}
+	add := func(d plainDef, flavour string) {
+		s := plainShape(d, flavour, true)
+		if !have[s.Name] {
+			have[s.Name] = true
+			out = append(out, s)
+		}
+	}
+	for _, d := range append(plainDefs(), deepPlainDefs(e)...) {
+		add(d, "")
+		add(d, "setconn")
+		if !d.enc {
+			add(d, "enc")
+			add(d, "imported")
+		}
+	}
+	for _, d := range deepHsDefs() {
+		out = append(out, hsShape(d, "client"), hsShape(d, "server"))
+	}
+	out = append(out, deepHandshakeShapes()...)
 	return out
 }
 
-func findShape(name, role string) *shape {
-	for _, s := range allShapes() {
+func findShape(e *env, name, role string) *shape {
+	for _, s := range allShapes(e, true) {
 		if s.Name == name && s.Role == role {
 			return s
 		}
